@@ -400,3 +400,43 @@ func VH_C10_selectors() {
 	}
 	zz.Reach("end")
 }
+
+// VH_C10_schedules: two schedule bindings that may share their name (every
+// unnamed one is called "schedule") and their crontab: each becomes its own
+// effective binding, in declared order, with its own queue/group/allowFailure
+// and its own schedule id (the id is what the schedule manager and the bindings
+// controller key on, so equal ids would merge the two bindings).
+func VH_C10_schedules() {
+	vhValidatorAccepts()
+	cv1 := &HookConfigV1{ConfigVersion: "v1"}
+	for i := 0; i < 2; i++ {
+		si := strconv.Itoa(i)
+		cv1.Schedule = append(cv1.Schedule, ScheduleConfigV1{
+			Name:         zz.OneOf("sname"+si, "", "nightly"),
+			Crontab:      zz.ConcretizeStr(zz.OneOf("scrontab"+si, "* * * * *", "*/5 * * * *")),
+			Queue:        zz.OneOf("squeue"+si, "", "q1", "q2"),
+			Group:        zz.OneOf("sgroup"+si, "", "g1"),
+			AllowFailure: zz.Bool("sallow" + si),
+		})
+	}
+	c := &HookConfig{Version: "v1", V1: cv1}
+	err := cv1.ConvertAndCheck(c)
+	zz.Assert(err == nil, "valid_config_loads")
+	if err != nil {
+		return
+	}
+	zz.Assert(len(c.Schedules) == 2, "declared_bindings_only")
+	if len(c.Schedules) != 2 {
+		return
+	}
+	for i, out := range c.Schedules {
+		in := cv1.Schedule[i]
+		zz.Assert(out.BindingName == vhOrDefault(in.Name, "schedule"), "schedule_name_default")
+		zz.Assert(out.Queue == vhOrDefault(in.Queue, "main"), "schedule_queue_default")
+		zz.Assert(out.Group == in.Group && out.AllowFailure == in.AllowFailure, "schedule_settings_carried")
+		zz.Assert(out.ScheduleEntry.Crontab == in.Crontab, "schedule_crontab_carried")
+		zz.Assert(out.ScheduleEntry.Id != "", "schedule_has_an_id")
+	}
+	zz.Assert(c.Schedules[0].ScheduleEntry.Id != c.Schedules[1].ScheduleEntry.Id, "each_schedule_binding_has_its_own_id")
+	zz.Reach("end")
+}
